@@ -1,7 +1,11 @@
 package quic
 
 import (
+	"math"
 	"slices"
+	"time"
+
+	"github.com/refraction-networking/uquic/internal/protocol"
 
 	tls "github.com/refraction-networking/utls"
 )
@@ -108,6 +112,57 @@ func (s *QUICSpec) TransportParameterIDs() []uint64 {
 		return ids
 	}
 	return nil
+}
+
+// configEnforcingAdvertisedLimits returns the Config a spec-driven connection must run
+// with. The limits a connection enforces on its peer (receive windows, incoming stream
+// counts, idle timeout, DATAGRAM support) are taken from Config, but the limits it
+// advertises are the spec's transport parameters. A peer is entitled to use what was
+// advertised, so never enforce less: each limit is raised to the advertised value if
+// Config is lower. conf itself is not modified.
+func (s *QUICSpec) configEnforcingAdvertisedLimits(conf *Config) *Config {
+	if s.ClientHelloSpec == nil {
+		return conf
+	}
+	for _, ext := range s.ClientHelloSpec.Extensions {
+		qtp, ok := ext.(*tls.QUICTransportParametersExtension)
+		if !ok {
+			continue
+		}
+		c := conf.Clone()
+		for _, tp := range qtp.TransportParameters {
+			switch v := tp.(type) {
+			case tls.InitialMaxData:
+				c.InitialConnectionReceiveWindow = max(c.InitialConnectionReceiveWindow, uint64(v))
+			case tls.InitialMaxStreamDataBidiLocal:
+				c.InitialStreamReceiveWindow = max(c.InitialStreamReceiveWindow, uint64(v))
+			case tls.InitialMaxStreamDataBidiRemote:
+				c.InitialStreamReceiveWindow = max(c.InitialStreamReceiveWindow, uint64(v))
+			case tls.InitialMaxStreamDataUni:
+				c.InitialStreamReceiveWindow = max(c.InitialStreamReceiveWindow, uint64(v))
+			case tls.InitialMaxStreamsBidi:
+				if uint64(v) <= uint64(protocol.MaxStreamCount) {
+					c.MaxIncomingStreams = max(c.MaxIncomingStreams, int64(v))
+				}
+			case tls.InitialMaxStreamsUni:
+				if uint64(v) <= uint64(protocol.MaxStreamCount) {
+					c.MaxIncomingUniStreams = max(c.MaxIncomingUniStreams, int64(v))
+				}
+			case tls.MaxIdleTimeout:
+				if uint64(v) <= uint64(math.MaxInt64/int64(time.Millisecond)) {
+					c.MaxIdleTimeout = max(c.MaxIdleTimeout, time.Duration(v)*time.Millisecond)
+				}
+			case tls.MaxDatagramFrameSize:
+				if v > 0 {
+					c.EnableDatagrams = true
+				}
+			}
+		}
+		c.MaxStreamReceiveWindow = max(c.MaxStreamReceiveWindow, c.InitialStreamReceiveWindow)
+		c.MaxConnectionReceiveWindow = max(c.MaxConnectionReceiveWindow, c.InitialConnectionReceiveWindow)
+		return c
+	}
+	return conf
 }
 
 // UpdateConfig applies the spec's Config-level overrides to config — currently the
